@@ -1,5 +1,5 @@
 #!/bin/sh
 export GTSIM_TREE=$VP_RUN_REPO
 for p in C04 C01 C02 C11 C12 C15 C18 C19; do
-  echo "=== $p"; ./check $p --tier thorough --workers 11 --seed 11 2>&1 | tail -15
+  echo "=== $p"; ./check $p --tier thorough --workers 10 --seed 13 2>&1 | tail -15
 done
